@@ -7,7 +7,7 @@
 //   scen <prim> <init> <sec> <nsec> <quantum_ns> <spur> <eintr> T:<ret>:<op>,<op>,... T:<ret>:...   -> ok <threads>
 //        prim = mtx | sem | sig | mon | thr ; init = initial count (sem) / initially set (sig)
 //        ops  = lock try-<skip> unlock | signal wait twait-<ms> trywait | set reset wait twait-<ms> |
-//               lock try-<skip> unlock wait twait-<ms> set | start-<j> join-<j>
+//               lock try-<skip> unlock wait twait-<ms> set | start-<j> join-<j> | destroy (sig: delete the Signal)
 //        try-<skip>: on failure the next <skip> ops of the thread are skipped
 //   run <t.a>,<t.a>,...    (or `run -`)  explicit schedule prefix, default policy afterwards
 //        -> init:<events> <t.a>/<candidates>:<events> ... | <verdict>
@@ -34,7 +34,7 @@ int Debug::printf(const char* format, ...)
 }
 
 enum Prim { P_NONE, P_MTX, P_SEM, P_SIG, P_MON, P_THR };
-enum OpK { K_LOCK, K_TRY, K_UNLOCK, K_SIGNAL, K_WAIT, K_TWAIT, K_TRYWAIT, K_SET, K_RESET, K_START, K_JOIN };
+enum OpK { K_LOCK, K_TRY, K_UNLOCK, K_SIGNAL, K_WAIT, K_TWAIT, K_TRYWAIT, K_SET, K_RESET, K_START, K_JOIN, K_DESTROY };
 struct Op { OpK k; long arg; };
 struct Prog { Op ops[64]; int n; unsigned long ret; };
 
@@ -108,6 +108,7 @@ static void runProg(int t)
       bool r = thr[o.arg]->start(body, (void*)o.arg);
       sched_event("%d=%d", k, r ? 1 : 0); break;
     }
+    case K_DESTROY: delete sig; sig = 0; sched_event("%d=v", k); break;   // ~Signal: the caller asserts that nobody uses it any more
     case K_JOIN: { uint r = thr[o.arg]->join(); sched_event("%d=%u", k, r); break; }
     }
   }
@@ -136,6 +137,7 @@ static bool parseOp(char* s, Op& o)
   else if(!strcmp(s, "trywait") && !dash && se) o.k = K_TRYWAIT;
   else if(!strcmp(s, "set") && !dash && (si || mo)) o.k = K_SET;
   else if(!strcmp(s, "reset") && !dash && si) o.k = K_RESET;
+  else if(!strcmp(s, "destroy") && !dash && si) o.k = K_DESTROY;
   else if(!strcmp(s, "start") && dash && arg > 0 && arg < SCHED_MAXT) o.k = K_START;
   else if(!strcmp(s, "join") && dash && arg > 0 && arg < SCHED_MAXT) o.k = K_JOIN;
   else return false;
